@@ -253,9 +253,9 @@ func (c06) Run(c *fw.Ctx) {
 		}
 		// clock moves between sessions
 		if s > 0 {
-			op := genOp(r, l, now, histOpts{futureBatch: c.Index%5 == 1})
+			op := genOp(r, l, now, histOpts{futureBatch: c.Index%2 == 1})
 			for op.Kind != "advance" {
-				op = genOp(r, l, now, histOpts{futureBatch: c.Index%5 == 1})
+				op = genOp(r, l, now, histOpts{futureBatch: c.Index%2 == 1})
 			}
 			if farJump && s <= 2 && r.Intn(2) == 0 {
 				op.Delta = 200000000 + r.Int63n(2300000000)
